@@ -30,6 +30,38 @@
 //	          In the first four classes the body may call only functions that the translator
 //	          finds free of stores to shared memory (fixpoint over the packages; library functions
 //	          by the list `pureStd`), or that allow.json lists under `pure_calls`.
+//	local     effects on CALL-LOCAL OBJECTS do not count (local.go states the rule in full):
+//	          a struct-typed local variable (struct value or pointer to one; bytes.Buffer and
+//	          strings.Builder included) is call-local when (L1) it is declared in the function by
+//	          `var` / `:=`, (L2) every value it is given is created on the spot and owns what it
+//	          refers to (composite literal whose members with references are make / new / nil /
+//	          such literals, new(T), the zero value, the result of a constructor of the analysed
+//	          packages that returns nothing but such literals) and (L3) it does not escape: it is
+//	          only used as the root of field reads, of stores through owned paths (`v.f = e`,
+//	          `v.f[k] = e`, `v.n++`: struct-valued fields only, one index at most; a slice / map
+//	          field is only ever given make / nil / `append(v.f, …)` / `v.f[i:j]`), as the receiver
+//	          of RECEIVER-CONFINED methods of the analysed packages (methods whose receiver is
+//	          used in these ways only) or of the listed methods of bytes.Buffer / strings.Builder
+//	          that touch the receiver alone (not WriteTo, ReadFrom), and as an argument of
+//	          functions of the analysed packages (whose own bodies are judged) or the writer of
+//	          fmt.Fprint* / io.WriteString.  Stored into a field, global, slice, map, channel or
+//	          literal, returned, copied, `&v.f` taken, passed to anything else: an ordinary variable.
+//	          (U1) For a call-local object DECLARED INSIDE THE LOOP BODY (one per element) stores
+//	          through owned paths are no effects and a call of a receiver-confined method
+//	          contributes only what the method does to memory other than its receiver; the same
+//	          method called on anything else (a field of the function's receiver, an object that
+//	          lives across the iterations, an escaped one) contributes all its effects
+//	          (`fieldappend:T.f`, `setinsert`, …).  (U2) A call-local bytes.Buffer /
+//	          strings.Builder declared outside the body counts as declared inside when the body
+//	          begins with `v.Reset()` before any other use of v, v is used nowhere else in the
+//	          function and neither Bytes nor Next is called on it; no other object that lives
+//	          across the iterations is local (a collector declared before the loop keeps its
+//	          `fieldappend`).  (U3) What is read OUT of such an object and stored, appended,
+//	          printed or returned is judged where that happens by the rules above: `i.Values =
+//	          c.ids` is `fieldwrite:Identity.Values`, `out = append(out, b.String())` fills a slice
+//	          that must be sorted before use, `fmt.Fprint(w, b.String())` is `call:fmt.Fprint`.
+//	          robustness.sh (beside this file) replays the seeded regressions, the reverts of the
+//	          map-order repairs, every harmless patch under seeded/benign and variants/*.diff.
 //	facts     per element type, the least number of keys any sort comparator over slices of that
 //	          type compares (a tie-break that is removed shows here).
 //
